@@ -410,6 +410,7 @@ package s3db
 
 // Package-level variables assigned once at initialisation and never again.
 //@ global tables nonnil
+//@ global defaultLayer nonnil
 //@ global ErrS3DBConstraintNotNull nonnil
 //@ global ErrS3DBConstraintPrimaryKey nonnil
 //@ global ErrS3DBConstraintUnique nonnil
@@ -596,6 +597,7 @@ package s3db
 //@   modifies *c.Tree.Root.crdt.Mast
 //@   ensures readonly: imp(c.Tree.Root.readonly, *c.Tree.Root.crdt.Mast == old(*c.Tree.Root.crdt.Mast))
 //@   ensures absent-or-deleted-noop: imp(!old(has(tree(c), akeygo(key)) && visible(tree(c)[akeygo(key)]) && !rowOf(tree(c)[akeygo(key)].Value).Deleted), *c.Tree.Root.crdt.Mast == old(*c.Tree.Root.crdt.Mast))
+//@   ensures not-null-columns: forall i int :: imp(nnBroken(c, values, false, i) && old(has(tree(c), akeygo(key)) && visible(tree(c)[akeygo(key)]) && !rowOf(tree(c)[akeygo(key)].Value).Deleted), result != nil && *c.Tree.Root.crdt.Mast == old(*c.Tree.Root.crdt.Mast))
 //@   ensures applied: imp(result == nil && hasWT(ctx) && old(has(tree(c), akeygo(key)) && visible(tree(c)[akeygo(key)]) && !rowOf(tree(c)[akeygo(key)].Value).Deleted) && ns(wtOf(ctx)) >= old(tree(c)[akeygo(key)].ModEpochNanos),
 //@       has(tree(c), akeygo(key)) && tree(c)[akeygo(key)].ModEpochNanos == ns(wtOf(ctx)) && !tomb(tree(c)[akeygo(key)]) && entryOK(tree(c)[akeygo(key)], col) &&
 //@       eqNoV(absRow(rowOf(tree(c)[akeygo(key)].Value), wtOf(ctx), col), M(old(oldAbs(true, tree(c)[akeygo(key)], col)), updDelta(wtOf(ctx), old(oldAbs(true, tree(c)[akeygo(key)], col)), assigns(c, values, col)))))
@@ -635,6 +637,17 @@ package s3db
 //@ spec insDelta(t time.Time, p bool) AbsRow = AbsRow{D: false, Dt: ns(t), P: p, Ut: ite(p, ns(t), 0), V: 0}
 //@ spec keyTaken(had bool, e crdt.Value, t time.Time) bool = had && !tomb(e) && (!rowOf(e.Value).Deleted || !(dtime(rowOf(e.Value), tm(e.ModEpochNanos)) < ns(t)))
 
+// NOT NULL (properties C20, C06): SQLite ignores the constraints of a virtual
+// table's declaration; the statements enforce them. nnBroken: the statement
+// leaves column i of a NOT NULL declaration NULL.
+//@ spec nnBroken(c *VirtualTable, values map[int]interface{}, insert bool, i int) bool = c.schema != nil && 0 <= i && i < len(c.schema.Columns) && c.schema.Columns[i].NotNull && ite(has(values, i), values[i] == nil, insert)
+//@ func (*VirtualTable).notNullViolated
+//@   requires c != nil
+//@   modifies nothing
+//@   ensures none-missed: forall i int :: imp(nnBroken(c, values, insert, i), result)
+//@   ensures only-real: imp(result, c.schema != nil)
+//@   loop 1 invariant -1 <= rangeindex && rangeindex < len(c.schema.Columns) && c.schema != nil
+//@   loop 1 invariant forall i int :: imp(0 <= i && i <= rangeindex, !nnBroken(c, values, insert, i))
 //@ func (*VirtualTable).Insert
 //@   requires vtOK(c) && stmtCtx(ctx) && !c.usesRowID && c.ColumnNameByIndex != nil && c.ColumnIndexByName != nil
 //@   requires forall a int, k string :: tableOK(c, k, a)
@@ -645,6 +658,7 @@ package s3db
 //@   modifies *c.Tree.Root.crdt.Mast
 //@   ensures no-key: imp(!has(values, c.KeyCol), err != nil && *c.Tree.Root.crdt.Mast == old(*c.Tree.Root.crdt.Mast))
 //@   ensures not-null: imp(has(values, c.KeyCol) && values[c.KeyCol] == nil, err == ErrS3DBConstraintNotNull && *c.Tree.Root.crdt.Mast == old(*c.Tree.Root.crdt.Mast))
+//@   ensures not-null-columns: forall i int :: imp(has(values, c.KeyCol) && values[c.KeyCol] != nil && nnBroken(c, values, true, i), err == ErrS3DBConstraintNotNull && *c.Tree.Root.crdt.Mast == old(*c.Tree.Root.crdt.Mast))
 //@   ensures unique: imp(has(values, c.KeyCol) && values[c.KeyCol] != nil && hasWT(ctx) && old(keyTaken(has(tree(c), akeygo(values[c.KeyCol])), tree(c)[akeygo(values[c.KeyCol])], wtOf(ctx))),
 //@       (err == ErrS3DBConstraintPrimaryKey || err != nil) && *c.Tree.Root.crdt.Mast == old(*c.Tree.Root.crdt.Mast))
 //@   ensures unique-code: imp(err == nil && hasWT(ctx), !old(keyTaken(has(tree(c), akeygo(values[c.KeyCol])), tree(c)[akeygo(values[c.KeyCol])], wtOf(ctx))))
